@@ -37,13 +37,24 @@ class Run:
     pass
 
 
+TIMEOUTS = [0]
+
+
+class TooManyTimeouts(Exception):
+    pass
+
+
 def run_cli(cwd, args, env_extra=None, timeout=30, stdin=None, template=None):
+    if TIMEOUTS[0] >= 8:
+        # eight runs of this profile did not come back within their time limit (each is recorded): the
+        # violation is established, further runs would only wait for the limit again
+        raise TooManyTimeouts()
     env = dict(os.environ)
     for k in list(env):
         if k.startswith("SLT_") or k.startswith("BUILDKITE_") or k.startswith("FAKE_"):
             del env[k]
     env["RUST_BACKTRACE"] = "0"
-    env["RUST_LOG"] = "off"
+    env["RUST_LOG"] = "off"    # (profiles that want the CLI's warnings pass RUST_LOG in env_extra)
     log = os.path.join(cwd, "events.log")
     for f in (log, log + ".cnt"):
         if os.path.exists(f):
@@ -63,7 +74,10 @@ def run_cli(cwd, args, env_extra=None, timeout=30, stdin=None, template=None):
         r.exit, r.stdout, r.stderr = -999, (e.stdout or b"").decode("utf-8", "replace"), (e.stderr or b"").decode("utf-8", "replace")
         r.timeout = True
     r.wall = time.time() - t0
+    if r.timeout:
+        TIMEOUTS[0] += 1
     r.events = []
+    r.too_many = TIMEOUTS[0] >= 8
     if os.path.exists(log):
         for line in open(log):
             t = line.rstrip("\n").split(" ")
@@ -314,12 +328,18 @@ def file_text(path, kind, rnd, extra=True, n_before=None, linger=False):
         recs.append("statement maybe\nx\n")
     elif kind == "die":
         recs.append(f"statement ok\ndie{m}\n")
+    elif kind == "diepass":
+        # the engine process dies on the last request; the record expects exactly the error text the
+        # driver reports for that (`io failed`, nothing appended)
+        recs.append(ok_rec())
+        recs.append(f"statement error\ndie{m}\n----\nio failed\n\n")
     elif kind == "refuse":
         recs.append(f"statement ok\nrefuse{m}\n")
     return "\n".join(recs)
 
 
-GROUND = {"pass": "pass", "fail": "fail", "mismatch": "fail", "parse": "fail", "die": "fail", "refuse": "refuse"}
+GROUND = {"pass": "pass", "fail": "fail", "mismatch": "fail", "parse": "fail", "die": "fail", "refuse": "refuse",
+          "diepass": "pass"}
 TAGMAP = {"OK": "ok", "FAILED": "err", "SKIPPED": "skipped", "CANCELLED": "cancelled", None: "none"}
 
 
@@ -626,7 +646,7 @@ def profile_cli16(rnd, n, thorough, out):
     for si in range(n):
         cwd = fresh_dir(f"c16_{si}")
         nfiles = rnd.randint(1, 12)
-        pool = rnd.choice([["pass"], ["pass", "pass", "pass", "fail"], ["pass", "fail", "mismatch", "parse", "die"],
+        pool = rnd.choice([["pass"], ["pass", "pass", "pass", "fail"], ["pass", "fail", "mismatch", "parse", "die", "diepass"],
                            ["pass", "pass", "refuse"], ["pass", "pass", "pass", "pass", "parse"]])
         files, kinds = write_set(cwd, nfiles, rnd, pool)
         for mode in (["serial", "par"] if not thorough else ["serial", "par", "par"]):
@@ -682,6 +702,28 @@ def profile_cli16(rnd, n, thorough, out):
                         ("C16|" + oracle) if oracle else None)
                 add_trace(out, jobs, False, False, names, kinds3, tags, r, tag)
             shutil.rmtree(cwd3, ignore_errors=True)
+        # a selected file that has vanished when its turn comes (removed by a `system` record of an earlier
+        # file): it is reported as failed, and the exit status is not 0
+        if si % 4 == 2:
+            cwd4 = fresh_dir(f"c16v_{si}")
+            os.makedirs(os.path.join(cwd4, "t"), exist_ok=True)
+            names = ["t/a.slt", "t/b.slt", "t/c.slt"]
+            kinds4 = {"t/a.slt": "pass", "t/b.slt": "parse", "t/c.slt": "pass"}
+            open(os.path.join(cwd4, "t/a.slt"), "w").write(
+                file_text("t/a.slt", "pass", rnd, extra=False) + "\nsystem ok\nrm -f t/b.slt\n")
+            open(os.path.join(cwd4, "t/b.slt"), "w").write(file_text("t/b.slt", "pass", rnd, extra=False))
+            open(os.path.join(cwd4, "t/c.slt"), "w").write(file_text("t/c.slt", "pass", rnd, extra=False))
+            for jobs in (0, 1):
+                if not os.path.exists(os.path.join(cwd4, "t/b.slt")):
+                    open(os.path.join(cwd4, "t/b.slt"), "w").write(file_text("t/b.slt", "pass", rnd, extra=False))
+                r, tags, ju, evs, cause, oracle = cli_run_set(cwd4, names, kinds4, jobs, False, False, rnd, latency=0)
+                if oracle is None and r.exit == 0:
+                    oracle = "exit status 0 although t/b.slt had vanished when its turn came"
+                tag = f"cli16 set={si} jobs={jobs} a selected file is removed by an earlier file (exit {r.exit})"
+                out.add(climon_case(jobs, False, r.exit, cause, names, kinds4, tags, ju, evs), "accept", tag,
+                        ("C16|" + oracle) if oracle else None)
+                add_trace(out, jobs, False, False, names, kinds4, tags, r, tag)
+            shutil.rmtree(cwd4, ignore_errors=True)
         # a cancelled file makes the exit status non-zero: Ctrl-C while the LAST file is running
         if all(kinds[f] == "pass" for f in files):
             r0 = cli_run_set(cwd, files, kinds, 0, False, False, rnd, latency=0)[0]
@@ -697,8 +739,16 @@ def profile_cli17(rnd, n, thorough, out):
     for si in range(n):
         cwd = fresh_dir(f"c17_{si}")
         nfiles = rnd.randint(1, 10)
-        pool = rnd.choice([["pass"], ["pass", "pass", "fail"], ["pass", "fail", "die", "parse"]])
+        pool = rnd.choice([["pass"], ["pass", "pass", "fail"], ["pass", "fail", "die", "parse", "diepass"]])
         files, kinds = write_set(cwd, nfiles, rnd, pool, shadows=True)
+        if si % 3 == 2 and len(files) >= 2:
+            # the server refuses to create the database of one file that is not the first (the CLI logs
+            # the error and goes on): every database it did create is still dropped at the end
+            g = "t/m_nocreate.slt"
+            open(os.path.join(cwd, g), "w").write(file_text(g, "pass", rnd, extra=False))
+            files.append(g)
+            kinds[g] = "pass"
+            files.sort()
         for ri in range(2 if not thorough else 4):
             # every job count 1..8 is visited in turn (jobs = 1 is a parallel run like any other)
             jobs = 1 + (2 * si + ri) % 8 if ri < 2 else rnd.randint(1, 8)
@@ -806,6 +856,22 @@ def profile_cli19(rnd, n, thorough, out):
                 out.add(f"serialsig 0 {len(files)} " + " ".join(GROUND[kinds[f]] for f in files) +
                         f" {oi if during else oi + 1} {1 if during else 0}", impl,
                         tag + f" [serial fold, signal {'during' if during else 'after'} file {oi}]", None)
+        # ---- Ctrl-C while the engine is about to write a reply larger than a pipe buffer (D28: the pinned
+        # tree closed the engine's input and waited for it without reading its output any more: the
+        # engine blocked in write(), the CLI hung)
+        for f in files:
+            m = f" -- F{f}"
+            open(os.path.join(cwd, f), "w").write(
+                f"statement ok\nins 1{m}\n\nquery T\nbig {rnd.choice([70000, 200000])} x{m}\n----\nx\n\nstatement ok\nins 2{m}\n")
+        kindsb = {f: "fail" for f in files}     # (run to completion each file fails: the value is not `x`)
+        r, tags, ju, evs, cause, oracle = cli_run_set(cwd, files, kindsb, jobs, False, False, rnd, sigint_at=2, latency=0)
+        sig = [e for e in r.events if e["ev"] == "sigint"]
+        if oracle is None and sig and r.exit == 0:
+            oracle = "exit status 0 although the run was interrupted by Ctrl-C"
+        out.add(climon_case(jobs, False, r.exit, True, files, kindsb, tags, ju, evs), "accept",
+                f"cli19 set={si} jobs={jobs} sigint while a reply larger than the pipe buffer is pending",
+                ("C19|" + oracle) if oracle else None)
+        add_trace(out, jobs, False, False, files, kindsb, tags, r, f"cli19 set={si} jobs={jobs} sigint, large reply pending")
         # ---- Ctrl-C while a file waits in a `sleep` record (or a retry back-off): the wait is cut short,
         # nothing more is sent for the file, the CLI exits promptly
         for f in files:
@@ -834,7 +900,7 @@ def profile_cli19(rnd, n, thorough, out):
         # ---- fail-fast: the failing file fails on its first request while the others are still busy
         positions = range(nfiles) if jobs == 0 else range(min(jobs, nfiles))
         for pos in positions:
-            kinds2 = {f: ("fail" if i == pos else "pass") for i, f in enumerate(files)}
+            kinds2 = {f: ((("die" if (si + pos) % 3 == 1 else "fail")) if i == pos else "pass") for i, f in enumerate(files)}
             for i, f in enumerate(files):
                 open(os.path.join(cwd, f), "w").write(
                     # the other files run for different times (180, 240, 300 ms), all much longer than
@@ -886,6 +952,8 @@ def engine_answer(sql):
     if core.startswith("desc "):
         n = int((core[5:].split() or ["0"])[0])
         return f"rows x {n}" + "".join(f" 1 {hx('r' + str(i))}" for i in reversed(range(n)))
+    if core.startswith("die"):
+        return "error " + hx("io failed")
     if core.startswith("blankrow"):
         return f"rows x 2 1 {hx('v')} 1 {hx(' ')}"
     if core.startswith("fail"):
@@ -937,6 +1005,9 @@ UPD_RECORDS = [
     ("statement ok retry 3 backoff 1ms", "flaky 2 boom {n}", ""),
     ("statement ok retry 2 backoff 0s", "flaky 2 boom {n}", ""),
     ("statement ok", "flaky 1 boom {n}", ""),
+    # a long statement with multi-byte characters throughout (whatever abbreviates it must cut at a
+    # character boundary)
+    ("statement ok retry 2 backoff 0s", "flaky 1 boom " + "\u4e2d\u6587\u00e9x" * 200 + " {n}", ""),
     # result blocks whose LAST line consists of white space only (a blank value): when such a record ends
     # a file, the trailing-newline clean-up must not take that line for padding
     ("query T", "blankrow {n}", "----\nv\n \n"),
@@ -1010,7 +1081,14 @@ def gen_cli_tree(rnd, multi=0):
         if c == 1:
             return t + "\n" * rnd.randint(1, 20)
         return t
-    if rnd.random() < 0.2:
+    if rnd.random() < 0.15:
+        # the engine process dies on the very last request; the record expects exactly the error text
+        # the driver reports for that
+        ctr[0] += 1
+        q = f"die {ctr[0] * 10 + 1} #{ctr[0]}"
+        sqls.append(q)
+        root += f"statement error\n{q}\n----\nio failed\n\n"
+    elif rnd.random() < 0.2:
         ctr[0] += 1
         q = f"blankrow {ctr[0] * 10 + 1} #{ctr[0]}"
         sqls.append(q)
@@ -1031,6 +1109,9 @@ def gen_cli_tree(rnd, multi=0):
         sqls.append(q)
         body += f"{hdr}\n{q}\n{block.format(n=ctr[0] * 10 + 1, m=ctr[0] * 10 + 2)}\n"
         body += records(rnd.randint(0, 3))
+        if names and names[0] != "root.inc" and rnd.random() < 0.4:
+            # ... and an include that another root of the same invocation has too
+            body += f"include {names[0]}\n\n" + records(rnd.randint(0, 1))
         nm = f"m{i}.slt"
         tree.append((nm, ending(body)))
         extra.append(nm)
@@ -1209,7 +1290,12 @@ def run_multi(cwd, tree, roots, mode, labels=()):
         os.makedirs(os.path.dirname(os.path.join(cwd, p)) or cwd, exist_ok=True)
         open(os.path.join(cwd, p), "w").write(c)
     args = (["--override"] if mode == "override" else []) + [x for l in labels for x in ("--label", l)] + roots
-    r = run_cli(cwd, args, timeout=40)
+    if mode == "override" and len(roots) > 1 and sum(map(ord, roots[0])) % 2 == 0:
+        # `-j` has no meaning for --override (files are rewritten one after the other): it must not change
+        # the outcome
+        args = ["-j", "2"] + args
+    # with warnings on, a failed attempt of a retried record is formatted and logged
+    r = run_cli(cwd, args, {"RUST_LOG": "warn"}, timeout=40)
     after = []
     for p, _ in tree:
         try:
@@ -1228,7 +1314,8 @@ def run_multi(cwd, tree, roots, mode, labels=()):
         # one block of stdout per root, in order
         pos = []
         for root in roots:
-            m = re.search(r"(?m)^" + re.escape(root) + r"\s+\.\. \[(OK|FAILED|BEGIN)\]", r.stdout)
+            # (with warnings on, log lines of the retry loop come between the name and the status)
+            m = re.search(r"(?m)^" + re.escape(root) + r"\s+\.\. ", r.stdout)
             pos.append(m.start() if m else -1)
         for i, root in enumerate(roots):
             st = pos[i]
@@ -1238,9 +1325,9 @@ def run_multi(cwd, tree, roots, mode, labels=()):
             later = [p for p in pos if p > st]
             block = r.stdout[st:min(later) if later else len(r.stdout)]
             if "[FAILED]" not in block:
-                stats.append("ok")
+                stats.append("ok" if "[OK]" in block else "none")
             else:
-                m = re.search(r"\bat (\S+?):(\d+)", block)
+                m = re.search(r"\bat (\S+?):(\d+)", block[block.index("[FAILED]"):])
                 stats.append(f"err {m.group(2)}" if m else "err ?")
     else:
         stats = ["done" for _ in roots]
@@ -1454,7 +1541,10 @@ def main():
         prof, seed, n, tier, outdir = sys.argv[2], int(sys.argv[3]), int(sys.argv[4]), sys.argv[5], sys.argv[6]
         rnd = random.Random(seed * 7919 + hash(prof) % 1000 if False else seed * 7919 + sum(map(ord, prof)))
         out = Out(outdir)
-        PROFILES[prof](rnd, n, tier == "thorough", out)
+        try:
+            PROFILES[prof](rnd, n, tier == "thorough", out)
+        except TooManyTimeouts:
+            pass
         out.close()
         print(out.n)
     elif sys.argv[1] == "libtrace":
